@@ -10,6 +10,17 @@
 #include <climits>
 #include <unordered_set>
 
+#if defined(__SANITIZE_ADDRESS__)
+#define GS_MEMORY_CHECKED 1
+#elif defined(__has_feature)
+#if __has_feature(address_sanitizer)
+#define GS_MEMORY_CHECKED 1
+#endif
+#endif
+#ifndef GS_MEMORY_CHECKED
+#define GS_MEMORY_CHECKED 0
+#endif
+
 namespace gs {
 
 enum RejPrep { P_RANGE, P_SHRINK, P_MISSING };
@@ -129,6 +140,12 @@ void Runner<A>::doReject(const sim::Op &op) {
     if (en.prep == P_RANGE) {
         static const char *badName[3] = {"size", "size+1", "UINT_MAX"};
         int badKind = (int)modn(op.b, 3);
+#if !GS_MEMORY_CHECKED
+        // Without a memory checker an unchecked index of size or size+1 corrupts the heap silently and the run stops being
+        // a function of its seed; UINT_MAX faults deterministically (or is reported as accepted). Small offsets are
+        // exercised by the ASan / debug-mode configurations only.
+        badKind = 2;
+#endif
         unsigned bad = badKind == 0 ? n : badKind == 1 ? n + 1 : UINT_MAX;
         int pos = (int)modn(op.a, (unsigned)en.arity);
         if (en.arity == 2 && (op.y & 2)) { a = bad; b = bad; cell += "|both"; }
